@@ -59,6 +59,9 @@ type stPtrs struct {
 	G null.Float `json:"g"`
 }
 
+// stEmpty encodes to zero bytes: blocks with a record count and an empty payload
+type stEmpty struct{}
+
 type staticEnc interface {
 	encode(v reflect.Value) error
 	flush() error
@@ -80,8 +83,9 @@ var staticTypes = map[string]struct {
 	t   reflect.Type
 	enc func(w *bytes.Buffer, codec string, bs int) (staticEnc, error)
 }{
-	"stWide": {reflect.TypeOf(stWide{}), newStaticEnc[stWide]},
-	"stPtrs": {reflect.TypeOf(stPtrs{}), newStaticEnc[stPtrs]},
+	"stWide":  {reflect.TypeOf(stWide{}), newStaticEnc[stWide]},
+	"stEmpty": {reflect.TypeOf(stEmpty{}), newStaticEnc[stEmpty]},
+	"stPtrs":  {reflect.TypeOf(stPtrs{}), newStaticEnc[stPtrs]},
 }
 
 // writeFile writes the values and returns the file bytes.
@@ -305,6 +309,9 @@ func genE2E(c *ctx) {
 		case i%10 == 1:
 			ty = T("static", A("stPtrs"))
 			desc, _, _ = descOf(staticTypes["stPtrs"].t)
+		case i%50 == 2:
+			ty = T("static", A("stEmpty"))
+			desc, _, _ = descOf(staticTypes["stEmpty"].t)
 		default:
 			ty = vg.randStruct(0)
 			desc = ty
